@@ -22,7 +22,12 @@ ASSUMPTIONS = ["kproto.parse_request is an independent strict reading of the Kaf
                "SimNet cuts the byte stream into frames by the length prefix only; the oracle additionally compares the bytes accepted by "
                "every connection with the concatenation of length-prefixed frames",
                "duplicates in the argument list: fetch keeps the later entry once (one fetch position per partition); every other call "
-               "states each occurrence"]
+               "states each occurrence",
+               "before an unrepresentable client id is configured the generated case connects the client to every leader: a multi-broker "
+               "call that fails while encoding shows its hash-map order only as a connect event, which the correspondence check cannot "
+               "replay in the model (the oracle itself does not depend on it)",
+               "when a call is refused because an argument has no destination (unknown topic/partition) the oracle only requires that "
+               "whatever is written is part of what was asked"]
 EXHAUSTIVE = False
 
 I16MAX = 32767
